@@ -85,7 +85,9 @@ fn alphabet() -> Vec<Atk> {
         v.push(Atk::F(RFrame::Push { id, data: vec![b'x'] }));
         v.push(Atk::F(RFrame::Bind { id, btype: 1, port: 1, host: vec![b'h'] }));
         v.push(Atk::F(RFrame::Bind { id, btype: 3, port: 65535, host: vec![] }));
-        v.push(Atk::F(RFrame::Datagram { id, port: 53, host: vec![b'd'], data: vec![1, 2] }));
+        // (payloads of 0, 1 and 2 octets and hosts of 0, 1 and 2 octets across the three ids: the short ends of the format)
+        let k = if id == 0 { 0usize } else if id == V { 1 } else { 2 };
+        v.push(Atk::F(RFrame::Datagram { id, port: 53, host: vec![b'd'; 2 - k], data: vec![1; k] }));
     }
     // frames a peer could send on the bystander's id while it is live
     v.push(Atk::F(RFrame::Connect { id: BY, rwnd: 1, port: 7, host: vec![0x33] }));
